@@ -246,6 +246,20 @@ func excused(err error) (string, bool) {
 	return "", false
 }
 
+// slowLog appends cases that took longer than a second to $C13_SLOW_LOG (diagnostics only).
+func slowLog(start time.Time, what string, input []byte) {
+	p := os.Getenv("C13_SLOW_LOG")
+	if d := time.Since(start); p != "" && d > time.Second {
+		if f, err := os.OpenFile(p, os.O_APPEND|os.O_CREATE|os.O_WRONLY, 0o644); err == nil {
+			if len(input) > 300 {
+				input = input[:300]
+			}
+			fmt.Fprintf(f, "%v %s len=%d %q\n", d, what, len(input), input)
+			f.Close()
+		}
+	}
+}
+
 // fuzzVerdict is the tail of every f.Fuzz body.
 func fuzzVerdict(t *testing.T, err error) {
 	if err == nil {
